@@ -107,7 +107,7 @@ func checkC03(c *Ctx, r *Report) {
 			var reads []ssa.CallInstruction
 			for b := range lp.body {
 				for _, in := range b.Instrs {
-					if ci, ok := in.(ssa.CallInstruction); ok && c.isRemoteRead(ci) {
+					if ci, ok := in.(ssa.CallInstruction); ok && c.j2IsRemoteRead(ci) { // ip_j2.go: also a reader handed down as a parameter
 						reads = append(reads, ci)
 					}
 				}
